@@ -76,9 +76,28 @@ func ToSolutionOutput(solution nextroute.Solution) schema.SolutionOutput {
 	}
 }
 
+// inputStopOf returns the input data of a model stop, also when the model stop
+// was created for an alternate stop of a vehicle.
+func inputStopOf(modelStop nextroute.ModelStop) (schema.Stop, bool) {
+	switch data := modelStop.Data().(type) {
+	case schema.Stop:
+		return data, true
+	case alternateInputStop:
+		return schema.Stop{
+			ID:                      data.stop.ID,
+			Location:                data.stop.Location,
+			CustomData:              data.stop.CustomData,
+			TargetArrivalTime:       data.stop.TargetArrivalTime,
+			EarlyArrivalTimePenalty: data.stop.EarlyArrivalTimePenalty,
+			LateArrivalTimePenalty:  data.stop.LateArrivalTimePenalty,
+		}, true
+	}
+	return schema.Stop{}, false
+}
+
 func toStopOutput(modelStop nextroute.ModelStop) schema.StopOutput {
 	var customData any
-	if inputStop, ok := modelStop.Data().(schema.Stop); ok {
+	if inputStop, ok := inputStopOf(modelStop); ok {
 		customData = inputStop.CustomData
 	}
 	return schema.StopOutput{
@@ -117,7 +136,7 @@ func toPlannedStopOutput(solutionStop nextroute.SolutionStop) schema.PlannedStop
 		plannedStopOutput.StartTime = &start
 	}
 
-	if inputStop, ok := solutionStop.ModelStop().Data().(schema.Stop); ok {
+	if inputStop, ok := inputStopOf(solutionStop.ModelStop()); ok {
 		if inputStop.TargetArrivalTime != nil {
 			targetArrivalTime := inputStop.TargetArrivalTime.In(timezoneLocation)
 			plannedStopOutput.TargetArrivalTime = &targetArrivalTime
